@@ -246,6 +246,27 @@ def nontrivial(o):
     return any(r[2] for r in T.decode_reqs(T.hb(o.get("out")))) or o["err"] != 0
 
 
+def burst_spec(o):
+    """every bad entry exactly one error record with its cause, every valid entry one probe - however late the
+    consumer of the error stream starts"""
+    eng = {"generic": "socks/docker/elastic engine (NewScanEngine, 4 workers)", "packet": "tcp packet engine (NewPacketEngine, real sender)"}[o["engine"]]
+    nbad = sum(o["nbad"].values())
+    head = "pairs file with %d valid and %d bad entries in a row through the %s, error consumer %d ms late" % (
+        o["nvalid"], nbad, eng, o["late_ms"])
+    if not o["done"]:
+        return head + ": the engine does not finish"
+    for cause, n in sorted(o["nbad"].items()):
+        got = (o["errors"] or {}).get(cause, 0)
+        if got != n:
+            return head + ": %d entries with cause '%s' give %d error records" % (n, cause, got)
+    extra = {k: v for k, v in (o["errors"] or {}).items() if k not in o["nbad"]}
+    if extra:
+        return head + ": error records with causes no entry has: %r" % extra
+    if o["probes"] != o["nvalid"]:
+        return head + ": %d probes for %d valid entries" % (o["probes"], o["nvalid"])
+    return None
+
+
 def run(ctx):
     quick = ctx.tier == "quick"
     ctx.trusted += ["easyjson decoder, net.ParseIP and bufio.Scanner are library code: the model works on line OUTCOMES which the "
@@ -258,11 +279,27 @@ def run(ctx):
     rows = []
     if ctx.harness_build("c13"):
         args = ["-out", "cases.jsonl", "-seed", ctx.seed]
-        args += ["-n", 600, "-nstages", 200] if quick else ["-n", 20000, "-nstages", 6000]
+        args += ["-n", 600, "-nstages", 200, "-nburst", 2] if quick else ["-n", 20000, "-nstages", 6000, "-nburst", 24]
         ok, _ = ctx.harness_run("c13", args, timeout=3000)
         if ok:
             rows = ctx.read_jsonl(os.path.join(ctx.work, "cases.jsonl"))
+    bursts = [o for o in rows if o["kind"] == "burst"]
+    rows = [o for o in rows if o["kind"] != "burst"]
     per_class = {}
+    # a run of 230..380 bad entries (more than the 100 slots of the engines' error channels) through the real
+    # GenericEngine and the real PacketEngine (real tcp filler, real sender) with an error consumer that starts late
+    for o in bursts:
+        cls = "burst:" + o["engine"]
+        ctx.count(cls, ("burst", o["case_seed"]), nontrivial=True,
+                  sample={"kind": "burst", "engine": o["engine"], "bad_entries": o["nbad"], "valid_entries": o["nvalid"],
+                          "consumer_late_ms": o["late_ms"], "error_records": o["errors"], "probes": o["probes"]})
+        why = burst_spec(o)
+        if why:
+            per_class[cls] = per_class.get(cls, 0) + 1
+            path = ctx.write_replay("burst-%s-%d" % (o["engine"], o["case_seed"]), {
+                "property": "C13", "what": why, "input": {"kind": "burst-" + o["engine"], "case_seed": o["case_seed"]},
+                "observed": o, "replay_cmd": "bin/check C13 --replay <this file>"})
+            ctx.findings.append({"key": "burst:" + o["engine"], "what": why, "replay": path})
     for o in rows:
         cls = "%s:%s:mode%d:%s" % (o["kind"], o["cmd"], o["mode"], o.get("source", ""))
         ctx.count(cls, (o["kind"], o["case_seed"]), nontrivial=nontrivial(o),
